@@ -4,93 +4,142 @@ From Verif Require Import c01vm2.Syntax c01vm2.Code c01vm2.VM c01vm2.Den c01vm2.
 Import ListNotations.
 
 (* ---- environments ---- *)
+Definition top_frame (sc : list frame) (cur base : nat) : Prop :=
+  exists rpc stamp save outer r, sc = Frame cur base rpc stamp save outer :: r.
+
 Section E.
 Variable code : list instr.
 
 (* a value variable lives at an address below [lim] and holds the value of the environment *)
 Definition valOK (sc : list frame) (vs : list sv) (lim : nat) (y : var) (w : jv) : Prop :=
   exists a, index_of sc y = Some a /\ a < lim /\ nth_error vs a = Some (SV w).
-(* a defined function: at pc p there is its opscope, followed by the code of its body compiled in the environment
-   that starts at the function's own entry (with no label), and opret; the slots visible in the body belong to
-   scopes older than the function's *)
-Definition funOK (p : nat) (body : query) (cel : list (BinNums.N * cbind)) : Prop :=
+(* a defined function (or, with no parameter, a closure passed to a user-defined function): at pc p there is its
+   opscope, followed by the parameter prelude, the code of its body compiled in the environment that starts at the
+   function's own entry (with no label) extended by the parameters, and opret; the slots visible in the body
+   belong to scopes older than the function's *)
+Definition funOK (p : nat) (ps : list param) (body : query) (cel : list (BinNums.N * cbind)) : Prop :=
   exists idf nvb cb s0 s1,
-    nth_error code p = Some (Iscope idf nvb 0) /\
-    comp body {| ce_env := cel; ce_lbls := [] |} idf (p + 1) 0 s0 = Some (cb, nvb, s1) /\
-    (forall i x, nth_error (cb ++ [Iret]) i = Some x -> nth_error code (p + 1 + i) = Some x) /\
-    ce_lt {| ce_env := cel; ce_lbls := [] |} idf = true.
+    nth_error code p = Some (Iscope idf nvb (length ps)) /\
+    (forall G, comp body {| ce_env := param_env idf ps ++ cel; ce_lbls := []; ce_ghost := G |} idf
+                 (p + 1 + length (prelude idf ps)) (param_slots ps) s0 = Some (cb, nvb, s1)) /\
+    (forall i x, nth_error (prelude idf ps ++ cb ++ [Iret]) i = Some x -> nth_error code (p + 1 + i) = Some x) /\
+    ce_lt {| ce_env := cel; ce_lbls := []; ce_ghost := fun _ => False |} idf = true.
 
-(* the compile-time environment and the semantic environment are parallel lists *)
-Fixpoint envOKl (sc : list frame) (vs : list sv) (lim : nat) (cel : list (BinNums.N * cbind)) (rho : venv) : Prop :=
-  match cel, rho with
-  | [], [] => True
-  | (x, CV y) :: cr, (x', BV w) :: rr => x = x' /\ valOK sc vs lim y w /\ envOKl sc vs lim cr rr
-  | (f, CF p) :: cr, (f', BF body) :: rr => f = f' /\ funOK p body cel /\ envOKl sc vs lim cr rr
-  | _, _ => False
-  end.
+(* the compile-time environment and the semantic environment are parallel lists; G: the addresses the
+   environments of the closures bound here depend on *)
+Inductive envOKl (G : nat -> Prop) (sc : list frame) (vs : list sv) (lim : nat) : list (BinNums.N * cbind) -> venv -> Prop :=
+| EO_nil : envOKl G sc vs lim [] []
+| EO_var : forall x y w cr rr, valOK sc vs lim y w -> envOKl G sc vs lim cr rr ->
+    envOKl G sc vs lim ((x, CV y) :: cr) ((x, BV w) :: rr)
+| EO_fun : forall f p ps body cr rr, funOK p ps body ((f, CF p (length ps)) :: cr) -> envOKl G sc vs lim cr rr ->
+    envOKl G sc vs lim ((f, CF p (length ps)) :: cr) ((f, BF ps body) :: rr)
+| EO_par : forall g y a rho_a cr rr addr p idx cel_a cur_a base_a lim_a Ga,
+    index_of sc y = Some addr -> addr < lim -> nth_error vs addr = Some (SPc p idx) ->
+    funOK p [] a cel_a -> top_frame idx cur_a base_a -> lim_a <= lim ->
+    envOKl Ga idx vs lim_a cel_a rho_a ->
+    (forall i, kept idx {| ce_env := cel_a; ce_lbls := []; ce_ghost := Ga |} i -> G i /\ i < lim_a) ->
+    envOKl G sc vs lim cr rr ->
+    envOKl G sc vs lim ((g, CP y) :: cr) ((g, BP a rho_a) :: rr).
 
 Definition envOK (sc : list frame) (ce : cenv) (rho : venv) (vs : list sv) (n0 lim : nat) : Prop :=
-  envOKl sc vs lim (ce_env ce) rho /\
+  envOKl (ce_ghost ce) sc vs lim (ce_env ce) rho /\
   (forall l y, lookup l (ce_lbls ce) = Some y ->
-     exists a id, index_of sc y = Some a /\ a < lim /\ nth_error vs a = Some (SLbl id) /\ id < n0).
+     exists a id, index_of sc y = Some a /\ a < lim /\ nth_error vs a = Some (SLbl id) /\ id < n0) /\
+  (forall i, ce_ghost ce i -> i < lim).
 
-Lemma envOKl_var : forall sc vs lim cel rho x y, envOKl sc vs lim cel rho -> lookup_cv x cel = Some y ->
+Lemma envOKl_var : forall G sc vs lim cel rho x y, envOKl G sc vs lim cel rho -> lookup_cv x cel = Some y ->
   exists a w, index_of sc y = Some a /\ a < lim /\ lookup_v x rho = Some w /\ nth_error vs a = Some (SV w).
 Proof.
-  induction cel as [|[z [k|p]] cr IH]; intros rho x y H Hl; simpl in *; [discriminate| |].
-  - destruct rho as [|[z' [w|b]] rr]; try contradiction. destruct H as (-> & (a & Ha & Hlt & Hn) & Hr). simpl.
-    destruct (N.eqb x z'); [inversion Hl; subst; eauto 8|eauto].
-  - destruct rho as [|[z' [w|b]] rr]; try contradiction. destruct H as (-> & _ & Hr). simpl. eauto.
+  intros G sc vs lim cel rho x y H. induction H; intros Hl; simpl in *; try discriminate; auto.
+  destruct H as (a & Ha & Hlt & Hn). destruct (N.eqb x x0); [inversion Hl; subst; eauto 8|eauto].
 Qed.
 Lemma envOK_var : forall sc ce rho vs n0 lim x y, envOK sc ce rho vs n0 lim -> lookup_cv x (ce_env ce) = Some y ->
   exists a w, index_of sc y = Some a /\ a < lim /\ lookup_v x rho = Some w /\ nth_error vs a = Some (SV w).
 Proof. intros sc ce rho vs n0 lim x y [H _]. eapply envOKl_var; eauto. Qed.
 
-(* a visible function: its body, its own environment (a suffix of both lists) *)
-Lemma envOKl_fun : forall sc vs lim cel rho f p, envOKl sc vs lim cel rho -> lookup_cf f cel = Some p ->
-  exists body cel' rho' pre, lookup_f f rho = Some (body, rho') /\ funOK p body cel' /\ envOKl sc vs lim cel' rho' /\
-                             cel = pre ++ cel'.
+(* a visible function f/argc: its body, its own environment (a suffix of both lists) *)
+Lemma envOKl_fun : forall G sc vs lim cel rho f argc p n, envOKl G sc vs lim cel rho -> lookup_cf f argc cel = Some (CF p n) ->
+  exists ps body cel' rho' pre, n = argc /\ length ps = argc /\ lookup_f f argc rho = Some (BF ps body, rho') /\
+     funOK p ps body cel' /\ envOKl G sc vs lim cel' rho' /\ cel = pre ++ cel'.
 Proof.
-  induction cel as [|[z [k|q]] cr IH]; intros rho f p H Hl; simpl in *; [discriminate| |].
-  - destruct rho as [|[z' [w|b]] rr]; try contradiction. destruct H as (-> & _ & Hr). simpl.
-    destruct (IH _ _ _ Hr Hl) as (body & cel' & rho' & pre & H1 & H2 & H3 & ->). exists body, cel', rho', ((z', CV k) :: pre). auto.
-  - destruct rho as [|[z' [w|b]] rr]; try contradiction. pose proof H as (-> & Hf & Hr). simpl.
-    destruct (N.eqb f z').
-    + inversion Hl; subst. exists b, ((z', CF p) :: cr), ((z', BF b) :: rr), []. simpl. auto.
-    + destruct (IH _ _ _ Hr Hl) as (body & cel' & rho' & pre & H1 & H2 & H3 & ->). exists body, cel', rho', ((z', CF q) :: pre). auto.
+  intros G sc vs lim cel rho f argc p n H. induction H; intros Hl; simpl in *; try discriminate.
+  - destruct (IHenvOKl Hl) as (ps & body & cel' & rho' & pre & H1 & H2 & H3 & H4 & H5 & ->).
+    exists ps, body, cel', rho', ((x, CV y) :: pre). auto 8.
+  - destruct (N.eqb f f0 && Nat.eqb (length ps) argc) eqn:E.
+    + inversion Hl; subst. apply andb_true_iff in E. destruct E as [_ E]. apply Nat.eqb_eq in E.
+      exists ps, body, ((f0, CF p (length ps)) :: cr), ((f0, BF ps body) :: rr), []. simpl. repeat split; auto.
+      constructor; auto.
+    + destruct (IHenvOKl Hl) as (ps' & body' & cel' & rho' & pre & H1 & H2 & H3 & H4 & H5 & ->).
+      exists ps', body', cel', rho', ((f0, CF p0 (length ps)) :: pre). auto 8.
+  - destruct (N.eqb f g && Nat.eqb argc 0) eqn:E; [discriminate|].
+    destruct (IHenvOKl2 Hl) as (ps' & body' & cel' & rho' & pre & H8 & H9 & H10 & H11 & H12 & ->).
+    exists ps', body', cel', rho', ((g, CP y) :: pre). auto 8.
+Qed.
+(* a visible filter parameter: the closure in its slot *)
+Lemma envOKl_par : forall G sc vs lim cel rho f y, envOKl G sc vs lim cel rho -> lookup_cf f 0 cel = Some (CP y) ->
+  exists a rho_a rho' addr p idx cel_a cur_a base_a lim_a Ga,
+    lookup_f f 0 rho = Some (BP a rho_a, rho') /\
+    index_of sc y = Some addr /\ addr < lim /\ nth_error vs addr = Some (SPc p idx) /\
+    funOK p [] a cel_a /\ top_frame idx cur_a base_a /\ lim_a <= lim /\ envOKl Ga idx vs lim_a cel_a rho_a /\
+    (forall i, kept idx {| ce_env := cel_a; ce_lbls := []; ce_ghost := Ga |} i -> G i /\ i < lim_a).
+Proof.
+  intros G sc vs lim cel rho f y H. induction H; intros Hl; simpl in *; try discriminate.
+  - destruct (IHenvOKl Hl) as (a & rho_a & rho' & addr & p & idx & cel_a & cur_a & base_a & lim_a & Ga & H1 & Hr).
+    exists a, rho_a, rho', addr, p, idx, cel_a, cur_a, base_a, lim_a, Ga. auto.
+  - destruct (N.eqb f f0 && Nat.eqb (length ps) 0) eqn:E; [discriminate|].
+    destruct (IHenvOKl Hl) as (a & rho_a & rho' & addr & p' & idx & cel_a & cur_a & base_a & lim_a & Ga & H1 & Hr).
+    exists a, rho_a, rho', addr, p', idx, cel_a, cur_a, base_a, lim_a, Ga. auto.
+  - destruct (N.eqb f g) eqn:E; simpl in *.
+    + inversion Hl; subst. exists a, rho_a, ((g, BP a rho_a) :: rr), addr, p, idx, cel_a, cur_a, base_a, lim_a, Ga. auto 12.
+    + destruct (IHenvOKl2 Hl) as (a' & rho_a' & rho' & addr' & p' & idx' & cel_a' & cur_a' & base_a' & lim_a' & Ga' & H8 & Hr).
+      exists a', rho_a', rho', addr', p', idx', cel_a', cur_a', base_a', lim_a', Ga'. auto.
 Qed.
 
-Lemma envOKl_kept_lt : forall sc vs lim cel rho x y k, envOKl sc vs lim cel rho -> In (x, CV y) cel -> index_of sc y = Some k -> k < lim.
+Lemma envOKl_kept_lt : forall G sc vs lim cel rho x y k, envOKl G sc vs lim cel rho ->
+  In (x, CV y) cel \/ In (x, CP y) cel -> index_of sc y = Some k -> k < lim.
 Proof.
-  induction cel as [|[z [k0|p]] cr IH]; intros rho x y k H Hin Hi; simpl in *; [contradiction| |].
-  - destruct rho as [|[z' [w|b]] rr]; try contradiction. destruct H as (-> & (a & Ha & Hlt & Hn) & Hr).
-    destruct Hin as [E|Hin]; [inversion E; subst; congruence|eauto].
-  - destruct rho as [|[z' [w|b]] rr]; try contradiction. destruct H as (-> & _ & Hr).
-    destruct Hin as [E|Hin]; [discriminate|eauto].
+  intros G sc vs lim cel rho x y k H. induction H; intros Hin Hi; simpl in *.
+  - destruct Hin; contradiction.
+  - destruct H as (a & Ha & Hlt & Hn).
+    destruct Hin as [[E|Hin]|[E|Hin]]; try discriminate; [inversion E; subst; congruence|auto|auto].
+  - destruct Hin as [[E|Hin]|[E|Hin]]; try discriminate; auto.
+  - destruct Hin as [[E|Hin]|[E|Hin]]; try discriminate; [auto|inversion E; subst; congruence|auto].
 Qed.
 Lemma kept_lt : forall sc ce rho vs n0 lim k, envOK sc ce rho vs n0 lim -> kept sc ce k -> k < lim.
 Proof.
-  intros sc ce rho vs n0 lim k [Hv Hl] [(x & y & Hx & Hi)|(l & y & Hx & Hi)].
+  intros sc ce rho vs n0 lim k (Hv & Hl & Hg) [(x & y & Hx & Hi)|[(l & y & Hx & Hi)|Hk]].
   - eapply envOKl_kept_lt; eauto.
   - destruct (Hl _ _ Hx) as (a & w & Ha & Hlt & _). congruence.
+  - auto.
 Qed.
 
-Lemma envOKl_same : forall sc vs vs' lim cel rho, envOKl sc vs lim cel rho ->
-  (forall x y k, In (x, CV y) cel -> index_of sc y = Some k -> nth_error vs k = nth_error vs' k) -> envOKl sc vs' lim cel rho.
+Lemma envOKl_same : forall G sc vs vs' lim cel rho, envOKl G sc vs lim cel rho ->
+  (forall x y k, In (x, CV y) cel \/ In (x, CP y) cel -> index_of sc y = Some k -> nth_error vs k = nth_error vs' k) ->
+  (forall k, G k -> nth_error vs k = nth_error vs' k) ->
+  envOKl G sc vs' lim cel rho.
 Proof.
-  induction cel as [|[z [k0|p]] cr IH]; intros rho H Hs; simpl in *; auto.
-  - destruct rho as [|[z' [w|b]] rr]; try contradiction. destruct H as (-> & (a & Ha & Hlt & Hn) & Hr).
-    split; [auto|]. split; [exists a; rewrite <- (Hs z' k0 a); auto|]. apply IH; auto. intros; eapply Hs; eauto.
-  - destruct rho as [|[z' [w|b]] rr]; try contradiction. destruct H as (-> & Hf & Hr).
-    split; [auto|]. split; [auto|]. apply IH; auto. intros; eapply Hs; eauto.
+  intros G sc vs vs' lim cel rho H. induction H; intros Hs Hg.
+  - constructor.
+  - destruct H as (a & Ha & Hlt & Hn). constructor.
+    + exists a. rewrite <- (Hs x y a); auto. left; left; auto.
+    + apply IHenvOKl; auto. intros x0 y0 k [Hin|Hin] Hk; apply (Hs x0 y0); auto; [left|right]; right; auto.
+  - constructor; auto. apply IHenvOKl; auto. intros x0 y0 k [Hin|Hin] Hk; apply (Hs x0 y0); auto; [left|right]; right; auto.
+  - econstructor; eauto.
+    + rewrite <- (Hs g y addr); auto. right; left; auto.
+    + apply IHenvOKl1.
+      * intros x0 y0 k Hin Hk. apply Hg. apply H6. left. exists x0, y0. auto.
+      * intros k Hk. apply Hg. apply H6. right. right. exact Hk.
+    + apply IHenvOKl2; auto. intros x0 y0 k [Hin|Hin] Hk; apply (Hs x0 y0); auto; [left|right]; right; auto.
 Qed.
 Lemma envOK_same : forall sc ce rho vs vs' n0 lim,
   envOK sc ce rho vs n0 lim -> (forall k, kept sc ce k -> nth_error vs k = nth_error vs' k) -> envOK sc ce rho vs' n0 lim.
 Proof.
-  intros sc ce rho vs vs' n0 lim [Hv Hl] H. split.
-  - eapply envOKl_same; eauto. intros x y k Hin Hi. apply H. left; eauto.
+  intros sc ce rho vs vs' n0 lim (Hv & Hl & Hg) H. split; [|split; [|exact Hg]].
+  - eapply envOKl_same; eauto.
+    + intros x y k Hin Hi. apply H. left; eauto.
+    + intros k Hk. apply H. right; right; exact Hk.
   - intros l y Hx. destruct (Hl _ _ Hx) as (a & id & Ha & Hk & Hn & Hid). exists a, id. repeat split; auto.
-    rewrite <- H; auto. right; eauto.
+    rewrite <- H; auto. right; left; eauto.
 Qed.
 
 Lemma envOK_chg : forall sc ce rho vs vs' n0 lim (P : nat -> Prop),
@@ -104,72 +153,78 @@ Lemma envOK_keep : forall (K : nat -> Prop) sc ce rho vs vs' n0 lim,
   envOK sc ce rho vs n0 lim -> keepX K vs vs' -> (forall i, kept sc ce i -> K i) -> envOK sc ce rho vs' n0 lim.
 Proof. intros K sc ce rho vs vs' n0 lim H [_ C] HK. eapply envOK_same; eauto. Qed.
 
-Lemma envOKl_lim : forall sc vs lim lim' cel rho, envOKl sc vs lim cel rho -> lim <= lim' -> envOKl sc vs lim' cel rho.
+Lemma envOKl_lim : forall G sc vs lim lim' cel rho, envOKl G sc vs lim cel rho -> lim <= lim' -> envOKl G sc vs lim' cel rho.
 Proof.
-  induction cel as [|[z [k0|p]] cr IH]; intros rho H Hle; simpl in *; auto.
-  - destruct rho as [|[z' [w|b]] rr]; try contradiction. destruct H as (-> & (a & Ha & Hlt & Hn) & Hr).
-    split; [auto|]. split; [exists a; repeat split; auto; lia|auto].
-  - destruct rho as [|[z' [w|b]] rr]; try contradiction. destruct H as (-> & Hf & Hr). auto.
+  intros G sc vs lim lim' cel rho H. induction H; intros Hle.
+  - constructor.
+  - destruct H as (a & Ha & Hlt & Hn). constructor; auto. exists a; repeat split; auto; lia.
+  - constructor; auto.
+  - apply (EO_par G sc vs lim' g y a rho_a cr rr addr p idx cel_a cur_a base_a lim_a Ga); auto; lia.
 Qed.
 Lemma envOK_lim : forall sc ce rho vs n0 lim lim', envOK sc ce rho vs n0 lim -> lim <= lim' -> envOK sc ce rho vs n0 lim'.
 Proof.
-  intros sc ce rho vs n0 lim lim' [Hv Hl] H. split; [eapply envOKl_lim; eauto|]. intros a k Hx.
-  destruct (Hl _ _ Hx) as (b & w & ? & ? & ? & ?). exists b, w. repeat split; auto. lia.
+  intros sc ce rho vs n0 lim lim' (Hv & Hl & Hg) H. split; [eapply envOKl_lim; eauto|]. split.
+  - intros a k Hx. destruct (Hl _ _ Hx) as (b & w & ? & ? & ? & ?). exists b, w. repeat split; auto. lia.
+  - intros i Hi. apply Hg in Hi. lia.
 Qed.
 
 Lemma envOK_n0 : forall sc ce rho vs n0 n0' lim, envOK sc ce rho vs n0 lim -> n0 <= n0' -> envOK sc ce rho vs n0' lim.
 Proof.
-  intros sc ce rho vs n0 n0' lim [Hv Hl] H. split; auto. intros a k Hx.
+  intros sc ce rho vs n0 n0' lim (Hv & Hl & Hg) H. split; auto. split; auto. intros a k Hx.
   destruct (Hl _ _ Hx) as (b & id & ? & ? & ? & ?). exists b, id. repeat split; auto. lia.
 Qed.
 
 Lemma envOK_lblOK : forall sc ce rho vs n0 lim, envOK sc ce rho vs n0 lim -> lblOK sc ce vs n0.
-Proof. intros sc ce rho vs n0 lim [_ Hl] l k Hx. destruct (Hl _ _ Hx) as (a & id & ? & ? & ? & ?). eauto. Qed.
+Proof. intros sc ce rho vs n0 lim (_ & Hl & _) l k Hx. destruct (Hl _ _ Hx) as (a & id & ? & ? & ? & ?). eauto. Qed.
 
 Lemma envOK_add_var : forall sc ce rho vs n0 lim x y a w,
   envOK sc ce rho vs n0 lim -> index_of sc y = Some a -> a < lim -> nth_error vs a = Some (SV w) ->
   envOK sc (add_var ce x y) ((x, BV w) :: rho) vs n0 lim.
 Proof.
-  intros sc ce rho vs n0 lim x y a w [Hv Hl] Hi Hk Hn. split; simpl; auto.
-  split; [auto|]. split; [exists a; auto|auto].
+  intros sc ce rho vs n0 lim x y a w (Hv & Hl & Hg) Hi Hk Hn. split; [|split]; simpl; auto.
+  constructor; auto. exists a; auto.
 Qed.
 
 Lemma envOK_add_lbl : forall sc ce rho vs n0 lim l y a id,
   envOK sc ce rho vs n0 lim -> index_of sc y = Some a -> a < lim -> nth_error vs a = Some (SLbl id) -> id < n0 ->
   envOK sc (add_lbl ce l y) rho vs n0 lim.
 Proof.
-  intros sc ce rho vs n0 lim l y a id [Hv Hl] Hi Hk Hn Hid. split; simpl; auto.
+  intros sc ce rho vs n0 lim l y a id (Hv & Hl & Hg) Hi Hk Hn Hid. split; [|split]; simpl; auto.
   intros z j. destruct (N.eqb z l); [|apply Hl]. intros E. inversion E; subst. exists a, id. auto.
 Qed.
 
 (* a function definition: the new entry describes the code just emitted *)
-Lemma envOK_add_fun : forall sc ce rho vs n0 lim f p body,
-  envOK sc ce rho vs n0 lim -> funOK p body ((f, CF p) :: ce_env ce) ->
-  envOK sc (add_fun ce f p) ((f, BF body) :: rho) vs n0 lim.
-Proof. intros sc ce rho vs n0 lim f p body [Hv Hl] Hf. split; simpl; auto. Qed.
+Lemma envOK_add_fun : forall sc ce rho vs n0 lim f p ps body,
+  envOK sc ce rho vs n0 lim -> funOK p ps body ((f, CF p (length ps)) :: ce_env ce) ->
+  envOK sc (add_fun ce f p (length ps)) ((f, BF ps body) :: rho) vs n0 lim.
+Proof. intros sc ce rho vs n0 lim f p ps body (Hv & Hl & Hg) Hf. split; [|split]; simpl; auto. constructor; auto. Qed.
 
 Lemma kept_add_var : forall sc ce x y a i, index_of sc y = Some a -> kept sc (add_var ce x y) i -> i = a \/ kept sc ce i.
 Proof.
-  intros sc ce x y a i Ha [(z & w & Hz & Hi)|(l & w & Hl & Hi)]; simpl in *.
-  - destruct Hz as [E|Hz]; [inversion E; subst; left; congruence|right; left; eauto].
-  - right; right; eauto.
+  intros sc ce x y a i Ha [(z & w & Hz & Hi)|[(l & w & Hl & Hi)|Hg]]; simpl in *.
+  - destruct Hz as [[E|Hz]|[E|Hz]]; try discriminate; [inversion E; subst; left; congruence|right; left; eauto|right; left; eauto].
+  - right; right; left; eauto.
+  - right; right; right; auto.
 Qed.
 Lemma kept_add_lbl : forall sc ce x y a i, index_of sc y = Some a -> kept sc (add_lbl ce x y) i -> i = a \/ kept sc ce i.
 Proof.
-  intros sc ce x y a i Ha [(z & w & Hz & Hi)|(l & w & Hl & Hi)]; simpl in *.
+  intros sc ce x y a i Ha [(z & w & Hz & Hi)|[(l & w & Hl & Hi)|Hg]]; simpl in *.
   - right; left; eauto.
-  - destruct (N.eqb l x); [inversion Hl; subst; left; congruence|right; right; eauto].
+  - destruct (N.eqb l x); [inversion Hl; subst; left; congruence|right; right; left; eauto].
+  - right; right; right; auto.
 Qed.
-Lemma kept_add_fun : forall sc ce f p i, kept sc (add_fun ce f p) i -> kept sc ce i.
+Lemma kept_add_fun : forall sc ce f p n i, kept sc (add_fun ce f p n) i -> kept sc ce i.
 Proof.
-  intros sc ce f p i [(z & w & Hz & Hi)|(l & w & Hl & Hi)]; simpl in *.
-  - destruct Hz as [E|Hz]; [discriminate|left; eauto].
-  - right; eauto.
+  intros sc ce f p n i [(z & w & Hz & Hi)|[(l & w & Hl & Hi)|Hg]]; simpl in *.
+  - destruct Hz as [[E|Hz]|[E|Hz]]; try discriminate; left; eauto.
+  - right; left; eauto.
+  - right; right; auto.
 Qed.
 End E.
 Arguments envOKl_var {code}.
 Arguments envOK_var {code}.
 Arguments envOKl_fun {code}.
+Arguments envOKl_par {code}.
 Arguments envOKl_kept_lt {code}.
 Arguments kept_lt {code}.
 Arguments envOKl_same {code}.
@@ -225,8 +280,7 @@ Definition stable (c : gctx) (P : list sv -> nat -> gx -> Prop) : Prop :=
   (forall a b m g m' g', P a m g -> keepK0 c a b -> cle m g m' g' -> P b m' g').
 
 (* the frame on top of sc is an activation of the scope being executed (id cur) with offset base *)
-Definition frameOK (sc : list frame) (cur base : nat) : Prop :=
-  exists rpc stamp save outer r, sc = Frame cur base rpc stamp save outer :: r.
+Definition frameOK (sc : list frame) (cur base : nat) : Prop := top_frame sc cur base.
 Lemma frameOK_cur : forall sc cur base, frameOK sc cur base -> forall k, index_of sc (cur, k) = Some (base + k).
 Proof. intros sc cur base (rpc & stamp & save & outer & r & ->) k. simpl. rewrite Nat.eqb_refl. reflexivity. Qed.
 Lemma frameOK_ne : forall sc cur base, frameOK sc cur base -> sc <> [].
@@ -253,10 +307,10 @@ Proof.
   intros sc cur base sn (rpc & stamp & save & outer & r & ->) Hne. simpl. destruct (Nat.eqb_spec cur sn); [congruence|reflexivity].
 Qed.
 
-Lemma ce_lt_var : forall ce sn x y, ce_lt ce sn = true -> In (x, CV y) (ce_env ce) -> fst y < sn.
+Lemma ce_lt_var : forall ce sn x y, ce_lt ce sn = true -> In (x, CV y) (ce_env ce) \/ In (x, CP y) (ce_env ce) -> fst y < sn.
 Proof.
   intros ce sn x y H Hin. unfold ce_lt in H. apply andb_true_iff in H. destruct H as [H _].
-  rewrite forallb_forall in H. specialize (H _ Hin). simpl in H. apply Nat.ltb_lt. exact H.
+  rewrite forallb_forall in H. destruct Hin as [Hin|Hin]; specialize (H _ Hin); simpl in H; apply Nat.ltb_lt; exact H.
 Qed.
 Lemma lookup_In : forall {A} (l : list (BinNums.N * A)) x a, lookup x l = Some a -> exists x', In (x', a) l.
 Proof.
@@ -268,30 +322,32 @@ Proof.
   intros ce sn l y H Hl. unfold ce_lt in H. apply andb_true_iff in H. destruct H as [_ H].
   rewrite forallb_forall in H. destruct (lookup_In _ _ _ Hl) as (l' & Hin). specialize (H _ Hin). simpl in H. apply Nat.ltb_lt. exact H.
 Qed.
-Lemma lookup_cv_In : forall cel x y, lookup_cv x cel = Some y -> exists x', In (x', CV y) cel.
-Proof.
-  induction cel as [|[z [k|p]] r IH]; intros x y H; simpl in H; [discriminate| |].
-  - destruct (N.eqb x z); [inversion H; subst; exists z; left; auto|]. destruct (IH _ _ H) as (x' & Hx). exists x'. right; auto.
-  - destruct (IH _ _ H) as (x' & Hx). exists x'. right; auto.
-Qed.
 
-Lemma envOKl_pushed : forall sc id sc' vs vs' lim cel rho, pushed sc id sc' ->
-  (forall x y, In (x, CV y) cel -> fst y <> id) -> (forall a, a < lim -> nth_error vs' a = nth_error vs a) ->
-  envOKl code sc vs lim cel rho -> envOKl code sc' vs' lim cel rho.
+Lemma envOKl_pushed : forall G sc id sc' vs vs' lim cel rho, pushed sc id sc' ->
+  (forall a, a < lim -> nth_error vs' a = nth_error vs a) ->
+  envOKl code G sc vs lim cel rho ->
+  (forall x y, In (x, CV y) cel \/ In (x, CP y) cel -> fst y <> id) ->
+  envOKl code G sc' vs' lim cel rho.
 Proof.
-  intros sc id sc' vs vs' lim cel. induction cel as [|[z [k0|p]] cr IH]; intros rho Hp Hne Hn H; simpl in *; auto.
-  - destruct rho as [|[z' [w|b]] rr]; try contradiction. destruct H as (-> & (a & Ha & Hlt & Hnth) & Hr).
-    split; [auto|]. split.
-    + exists a. rewrite (index_of_pushed _ _ _ _ Hp (Hne z' k0 (or_introl eq_refl))). rewrite Hn by auto. auto.
-    + apply IH; auto. intros; eapply Hne; right; eauto.
-  - destruct rho as [|[z' [w|b]] rr]; try contradiction. destruct H as (-> & Hf & Hr).
-    split; [auto|]. split; [auto|]. apply IH; auto. intros; eapply Hne; right; eauto.
+  intros G sc id sc' vs vs' lim cel rho Hp Hn H. induction H; intros Hne.
+  - constructor.
+  - destruct H as (a & Ha & Hlt & Hnth). constructor.
+    + exists a. rewrite (index_of_pushed _ _ _ _ Hp (Hne x y (or_introl (or_introl eq_refl)))). rewrite Hn by auto. auto.
+    + apply IHenvOKl; auto. intros x0 y0 [Hin|Hin]; apply (Hne x0 y0); [left|right]; right; auto.
+  - constructor; auto. apply IHenvOKl; auto. intros x0 y0 [Hin|Hin]; apply (Hne x0 y0); [left|right]; right; auto.
+  - apply (EO_par code G sc' vs' lim g y a rho_a cr rr addr p idx cel_a cur_a base_a lim_a Ga); auto.
+    + rewrite (index_of_pushed _ _ _ _ Hp (Hne g y (or_intror (or_introl eq_refl)))). auto.
+    + rewrite Hn by auto. auto.
+    + eapply envOKl_same; [exact H5| |].
+      * intros x0 y0 k Hin Hk. symmetry. apply Hn. assert (k < lim_a) by (apply H6; left; exists x0, y0; auto). lia.
+      * intros k Hk. symmetry. apply Hn. assert (k < lim_a) by (apply H6; right; right; exact Hk). lia.
+    + apply IHenvOKl2; auto. intros x0 y0 [Hin|Hin]; apply (Hne x0 y0); [left|right]; right; auto.
 Qed.
 Lemma envOK_pushed : forall sc id sc' ce rho vs vs' n0 lim, pushed sc id sc' -> ce_lt ce id = true ->
   envOK sc ce rho vs n0 lim -> (forall a, a < lim -> nth_error vs' a = nth_error vs a) ->
   envOK sc' ce rho vs' n0 lim.
 Proof.
-  intros sc id sc' ce rho vs vs' n0 lim Hp Hlt [Hv Hl] Hn. split.
+  intros sc id sc' ce rho vs vs' n0 lim Hp Hlt (Hv & Hl & Hg) Hn. split; [|split; [|exact Hg]].
   - eapply envOKl_pushed; eauto. intros x y Hin. pose proof (ce_lt_var _ _ _ _ Hlt Hin). lia.
   - intros l y Hx. destruct (Hl _ _ Hx) as (a & id' & Ha & Hk & Hnth & Hid). exists a, id'.
     pose proof (ce_lt_lbl _ _ _ _ Hlt Hx).
@@ -299,9 +355,10 @@ Proof.
 Qed.
 Lemma kept_pushed : forall sc id sc' ce i, pushed sc id sc' -> ce_lt ce id = true -> kept sc' ce i -> kept sc ce i.
 Proof.
-  intros sc id sc' ce i Hp Hlt [(x & y & Hx & Hi)|(l & y & Hx & Hi)].
+  intros sc id sc' ce i Hp Hlt [(x & y & Hx & Hi)|[(l & y & Hx & Hi)|Hg]].
   - pose proof (ce_lt_var _ _ _ _ Hlt Hx). rewrite (index_of_pushed _ _ _ _ Hp) in Hi by lia. left. eauto.
-  - pose proof (ce_lt_lbl _ _ _ _ Hlt Hx). rewrite (index_of_pushed _ _ _ _ Hp) in Hi by lia. right. eauto.
+  - pose proof (ce_lt_lbl _ _ _ _ Hlt Hx). rewrite (index_of_pushed _ _ _ _ Hp) in Hi by lia. right. left. eauto.
+  - right. right. exact Hg.
 Qed.
 Lemma encR_pushed : forall sc id sc' ce vs fin e, pushed sc id sc' -> ce_lt ce id = true ->
   encR sc' ce vs fin e -> encR sc ce vs fin e.
@@ -467,6 +524,16 @@ Ltac qind q :=
                  | a h IHa IHh | q IHq | s x i u IHs IHi IHu | s x i u e IHs IHi IHu IHe | l b IHb | l
                  | s x b IHs IHb | x | f | o a b IHa IHb | f ps body rest IHbody IHrest | f args IHargs ] using query_ind'.
 
+Lemma comp_args_mono : forall (C : query -> nat -> nat -> res) l p sn cas p' s2, comp_args C l p sn = Some (cas, p', s2) ->
+  Forall (fun a => forall s p0 cb nvc s1, C a s p0 = Some (cb, nvc, s1) -> s <= s1) l -> sn <= s2.
+Proof.
+  induction l as [|a r IH]; intros p sn cas p' s2 H HF; simpl in H.
+  - inversion H; subst. lia.
+  - destruct (comp_args C r p sn) as [[[cr p1] s1]|] eqn:Er; [|discriminate].
+    destruct (C a s1 p1) as [[[cb nvc] s3]|] eqn:Ea; [|discriminate]. inversion H; subst.
+    inversion HF; subst. apply IH in Er; auto. apply H2 in Ea. lia.
+Qed.
+
 Lemma comp_mono : forall q ce cur pc nv sn cq nv' sn', comp q ce cur pc nv sn = Some (cq, nv', sn') -> nv <= nv' /\ sn <= sn'.
 Proof.
   qind q; intros ce cur pc nv sn cq nv' sn' Hc; simpl in Hc; dcomp;
@@ -487,9 +554,16 @@ Proof.
     match type of Hc with context [comp a ce ?c ?p ?n ?s] =>
       destruct (comp a ce c p n s) as [[[ca na] s2]|] eqn:Ea; [|discriminate] end. cbv iota beta in Hc.
     inversion Hc; subst. apply IHb in Eb. apply IHa in Ea. lia.
-  - (* def *) destruct ps; [|discriminate]. destruct (Nat.ltb cur sn && ce_lt ce sn); [|discriminate].
+  - (* def *) destruct (Nat.ltb cur sn && ce_lt ce sn); [|discriminate].
     dcomp. inversion Hc; subst. apply IHbody in Ec. apply IHrest in Ec0. lia.
-  - (* callf *) destruct args; [|discriminate]. destruct (lookup_cf f (ce_env ce)); [|discriminate]. inversion Hc; subst; lia.
+  - (* callf *) destruct (lookup_cf f (length args) (ce_env ce)) as [[y|p n|y]|]; try discriminate.
+    + destruct args as [|a0 args']; [inversion Hc; subst; lia|].
+      destruct (Nat.ltb cur sn && ce_lt ce sn); [|discriminate].
+      match type of Hc with context [comp_args ?C ?l ?p ?s] => destruct (comp_args C l p s) as [[[cas p'] s2]|] eqn:Ea; [|discriminate] end.
+      inversion Hc; subst. split; [lia|].
+      eapply (comp_args_mono _ _ _ _ _ _ _ Ea).
+      eapply Forall_impl; [|exact IHargs]. simpl. intros a Ha s p0 cb nvc s1 Hca. apply Ha in Hca. lia.
+    + inversion Hc; subst; lia.
 Qed.
 
 (* ---- den-level facts ---- *)
